@@ -28,6 +28,7 @@ def defaults(prog, chk, rule="default-schedule"):
 
 
 def run(prog, chk, tier):
+    AE.DEEP[0] = (tier == "thorough")
     chk.explanation = (
         "Decided from the abstract interpreter's return states: (a) what StunRequestState::new gives a request: UDP intervals "
         "500..16000 ms then 8000 ms, TCP no retransmission and 39500 ms = their sum, timeout_i = 0, last_send_time = None; "
